@@ -19,7 +19,7 @@ open SMGo.Spec.SM2 (p)
 
 /-- the ring operations as SLP operations -/
 def ringOps (K : Type) [CommRing K] : Ops K :=
-  { mul := (· * ·), add := (· + ·), sub := (· - ·), zero := 0 }
+  { mul := (· * ·), add := (· + ·), sub := (· - ·), square := fun a => a * a, zero := 0 }
 
 section closed
 variable {K : Type} [CommRing K]
@@ -85,7 +85,8 @@ variable (hz : f o1.zero = o2.zero)
   (hmul : ∀ a b, f (o1.mul a b) = o2.mul (f a) (f b))
   (hadd : ∀ a b, f (o1.add a b) = o2.add (f a) (f b))
   (hsub : ∀ a b, f (o1.sub a b) = o2.sub (f a) (f b))
-include hz hmul hadd hsub
+  (hsq : ∀ a, f (o1.square a) = o2.square (f a))
+include hz hmul hadd hsub hsq
 
 theorem step_map (env : Env α) (i : Instr) :
     mapEnv f (step o1 env i) = step o2 (mapEnv f env) i := by
@@ -97,7 +98,7 @@ theorem step_map (env : Env α) (i : Instr) :
   rw [hz] at ha hb
   unfold mapEnv at ha hb
   rw [ha, hb]
-  cases i.op <;> simp only [hmul, hadd, hsub]
+  cases i.op <;> simp only [hmul, hadd, hsub, hsq]
 
 theorem eval_map (prog : List Instr) (env : Env α) :
     mapEnv f (eval o1 prog env) = eval o2 prog (mapEnv f env) := by
@@ -105,12 +106,12 @@ theorem eval_map (prog : List Instr) (env : Env α) :
   | nil => rfl
   | cons i prog ih =>
     unfold eval at *
-    rw [List.foldl_cons, List.foldl_cons, ih, step_map f o1 o2 hz hmul hadd hsub]
+    rw [List.foldl_cons, List.foldl_cons, ih, step_map f o1 o2 hz hmul hadd hsub hsq]
 
 /-- reading a register after evaluation, through the homomorphism -/
 theorem eval_get_map (prog : List Instr) (env : Env α) (r : String) :
     f ((eval o1 prog env).get o1.zero r) = (eval o2 prog (mapEnv f env)).get o2.zero r := by
-  rw [← hz, ← get_map f o1.zero, eval_map f o1 o2 (hz) hmul hadd hsub]
+  rw [← hz, ← get_map f o1.zero, eval_map f o1 o2 (hz) hmul hadd hsub hsq]
 
 end hom
 
@@ -127,8 +128,8 @@ theorem get_inv (hz : P o.zero) (env : Env α) (henv : ∀ kv ∈ env, P kv.2) (
   | some kv => exact henv kv (List.mem_of_find?_eq_some h)
 
 variable (hz : P o.zero) (hmul : ∀ a b, P (o.mul a b)) (hadd : ∀ a b, P (o.add a b))
-  (hsub : ∀ a b, P (o.sub a b))
-include hmul hadd hsub
+  (hsub : ∀ a b, P (o.sub a b)) (hsq : ∀ a, P (o.square a))
+include hmul hadd hsub hsq
 
 theorem eval_inv (prog : List Instr) (env : Env α) (henv : ∀ kv ∈ env, P kv.2) :
     ∀ kv ∈ eval o prog env, P kv.2 := by
@@ -141,13 +142,13 @@ theorem eval_inv (prog : List Instr) (env : Env α) (henv : ∀ kv ∈ env, P kv
     intro kv hkv
     unfold step at hkv
     rcases List.mem_cons.mp hkv with rfl | hkv
-    · cases i.op <;> simp only [hmul, hadd, hsub]
+    · cases i.op <;> simp only [hmul, hadd, hsub, hsq]
     · exact henv kv hkv
 
 include hz in
 theorem eval_get_inv (prog : List Instr) (env : Env α) (henv : ∀ kv ∈ env, P kv.2) (r : String) :
     P ((eval o prog env).get o.zero r) :=
-  get_inv o P hz _ (eval_inv o P hmul hadd hsub prog env henv) r
+  get_inv o P hz _ (eval_inv o P hmul hadd hsub hsq prog env henv) r
 
 end inv
 
@@ -173,6 +174,9 @@ theorem slp_hom_add (a b : Nat) :
     val ((Point.slpOps SM2.Fp).add a b) = (ringOps (ZMod p)).add (val a) (val b) := val_add a b
 theorem slp_hom_sub (a b : Nat) :
     val ((Point.slpOps SM2.Fp).sub a b) = (ringOps (ZMod p)).sub (val a) (val b) := val_sub a b
+/-- for `montOps`, `square a` is `mul a a` (definitionally) -/
+theorem slp_hom_square (a : Nat) :
+    val ((Point.slpOps SM2.Fp).square a) = (ringOps (ZMod p)).square (val a) := val_mul a a
 
 /-- the environments of `Point.add` / `Point.double` -/
 def addEnv {α : Type} (b : α) (a c : Pt α) : Env α :=
@@ -207,7 +211,7 @@ theorem val_get (prog : List Instr) (env : Env Nat) (r : String) :
     val ((eval (Point.slpOps SM2.Fp) prog env).get (Point.slpOps SM2.Fp).zero r) =
       (eval (ringOps (ZMod p)) prog (mapEnv val env)).get (ringOps (ZMod p)).zero r :=
   eval_get_map val (Point.slpOps SM2.Fp) (ringOps (ZMod p)) slp_hom_zero slp_hom_mul
-    slp_hom_add slp_hom_sub prog env r
+    slp_hom_add slp_hom_sub slp_hom_square prog env r
 
 /-- `Add` on values: the closed forms -/
 theorem add_val (a c : Pt Nat) :
@@ -240,7 +244,7 @@ theorem add_canon (a c : Pt Nat) (ha : Canon a) (hc : Canon c) : Canon (Point.ad
     simp only [addEnv, List.mem_cons, List.not_mem_nil, or_false] at hkv
     rcases hkv with rfl | rfl | rfl | rfl | rfl | rfl | rfl
     exacts [ha.1, ha.2.1, ha.2.2, hc.1, hc.2.1, hc.2.2, b_lt]
-  have key := eval_get_inv (Point.slpOps SM2.Fp) (· < p) zero_lt mul_lt add_lt sub_lt
+  have key := eval_get_inv (Point.slpOps SM2.Fp) (· < p) zero_lt mul_lt add_lt sub_lt (fun a => mul_lt a a)
     Gen.PointSLP.add _ henv
   rw [add_unfold]
   exact ⟨key Gen.PointSLP.add_out.1, key Gen.PointSLP.add_out.2.1, key Gen.PointSLP.add_out.2.2⟩
@@ -251,7 +255,7 @@ theorem double_canon (a : Pt Nat) (ha : Canon a) : Canon (Point.double SM2.point
     simp only [dblEnv, List.mem_cons, List.not_mem_nil, or_false] at hkv
     rcases hkv with rfl | rfl | rfl | rfl
     exacts [ha.1, ha.2.1, ha.2.2, b_lt]
-  have key := eval_get_inv (Point.slpOps SM2.Fp) (· < p) zero_lt mul_lt add_lt sub_lt
+  have key := eval_get_inv (Point.slpOps SM2.Fp) (· < p) zero_lt mul_lt add_lt sub_lt (fun a => mul_lt a a)
     Gen.PointSLP.double _ henv
   rw [double_unfold]
   exact ⟨key Gen.PointSLP.double_out.1, key Gen.PointSLP.double_out.2.1, key Gen.PointSLP.double_out.2.2⟩
